@@ -32,6 +32,45 @@ def line_trace(run, wd, module, nlines, timeout=3000, shards=16, chunk_bytes=48 
     Large traces are validated in consecutive chunks (TLC holds the deserialized trace in memory; several hundred MB of
     JSON make the JVM spend its time collecting garbage), line numbers are mapped back."""
     trace = os.path.join(wd, "trace.ndjson")
+    bad = _line_trace_all(run, wd, module, nlines, timeout, chunk_bytes, chunk_lines, trace)
+    if nlines > 0 and os.path.exists(trace):
+        binding_selftest(run, wd, module, trace, timeout)
+    return bad
+
+
+def binding_selftest(run, wd, module, trace, timeout):
+    """DESIGN 0.6: a few lines of the accepted trace with one observed field changed must all be rejected"""
+    import binding
+    with open(trace, "rb") as f:
+        raw = []
+        for ln in f:
+            if ln.strip():
+                raw.append(ln)
+            if len(raw) >= 40000:
+                break
+    lines = binding.corrupted_sample(module, raw, run.seed)
+    if lines is None:
+        return
+    if not lines:
+        run.extra.setdefault("binding_selftest", {})[module] = "no line of this trace offers an unambiguous corruption"
+        return
+    keep = trace + ".accepted"
+    os.rename(trace, keep)
+    try:
+        with open(trace, "w") as f:
+            f.write("\n".join(lines) + "\n")
+        res = vlib.tlc_or_die(wd, module, timeout=timeout)
+        rejected = sorted(int(v) for v in res.tags("BADLINE"))
+    finally:
+        os.replace(keep, trace)
+    run.extra.setdefault("binding_selftest", {})[module] = {"corrupted_lines": len(lines), "rejected": len(rejected)}
+    if len(rejected) != len(lines):
+        missing = [i for i in range(1, len(lines) + 1) if i not in rejected]
+        raise vlib.Inconclusive("binding self-test: %s accepted %d of %d lines whose observation was corrupted (first: %s)"
+                                % (module, len(missing), len(lines), lines[missing[0] - 1][:600]))
+
+
+def _line_trace_all(run, wd, module, nlines, timeout, chunk_bytes, chunk_lines, trace):
     if os.path.exists(trace) and (os.path.getsize(trace) > chunk_bytes or nlines > chunk_lines):
         full = trace + ".full"
         os.rename(trace, full)
